@@ -638,6 +638,7 @@ def report(pid, pc, tier, seed, results, extra_results, wall):
     out_lines = []
     real = []
     known = []
+    known_info = []
     for v in violations:
         k = [x for x in kf if x.get("property") == pid and x.get("clause") == v["clause"]
              and ("at" not in x or x["at"] in v.get("at", ""))]
@@ -646,6 +647,12 @@ def report(pid, pc, tier, seed, results, extra_results, wall):
             known.append({"clause": v["clause"], "at": v.get("at", ""), "finding": re.sub(r"^property=\S+\s*", "", k[0]["line"][len("finding:"):].strip())[:400]})
         else:
             real.append(v)
+    # findings that no clause of the check detects (clause=-): demonstrated against the real code by the named replay
+    # test, printed on every run for their property, suppressing nothing
+    for x in kf:
+        if x.get("property") == pid and x.get("clause") == "-":
+            out_lines.append("KNOWN-FINDING: property=%s %s" % (pid, re.sub(r"^property=\S+\s*", "", x["line"][len("finding:"):].strip())))
+            known_info.append(re.sub(r"^property=\S+\s*", "", x["line"][len("finding:"):].strip())[:400])
     if real:
         status, rc = "violation", 1
     # the obligations of the claim are those that have to hold: the clauses listed as known findings (failing, printed,
@@ -679,7 +686,7 @@ def report(pid, pc, tier, seed, results, extra_results, wall):
         "property_id": pid, "tier": tier, "seed": seed, "level": "proof",
         "coverage": {
             "obligations": n_obl, "discharged": max(n_dis, 0),
-            "obligations_generated": n_total, "known_findings": known,
+            "obligations_generated": n_total, "known_findings": known, "known_findings_not_detected_by_a_clause": known_info,
             "checker_cmd": " ; ".join(cmds + [e.get("cmd", "") for e in extra_results]),
             "trusted_base": trusted,
             "explanation": pc.get("explanation", ""),
